@@ -83,9 +83,13 @@ type Report struct {
 	Caps            []string         `json:"caps"`
 	Notes           []string         `json:"notes"`
 	Nondet          string           `json:"nondet"`
-	Counters        map[string]int64 `json:"counters"`
-	Bound           int              `json:"bound"`
-	seenSig         map[string]bool
+	// SoftBroken: a self-check of the machinery failed (e.g. conformance replay over real TCP differs). It makes the
+	// check CHECK-BROKEN unless the check itself also found violations of the property on this tree, in which case the
+	// divergence is attributed to the code under test and reported as a note next to the violations.
+	SoftBroken string           `json:"soft_broken"`
+	Counters   map[string]int64 `json:"counters"`
+	Bound      int              `json:"bound"`
+	seenSig    map[string]bool
 }
 
 func NewReport() *Report {
@@ -366,6 +370,9 @@ func runParent(ck *Check, tier string, seed int64, nw int, race bool, budget tim
 		if r.Nondet != "" && m.Nondet == "" {
 			m.Nondet = r.Nondet
 		}
+		if r.SoftBroken != "" && m.SoftBroken == "" {
+			m.SoftBroken = r.SoftBroken
+		}
 		if r.Bound > m.Bound {
 			m.Bound = r.Bound
 		}
@@ -381,6 +388,26 @@ func runParent(ck *Check, tier string, seed int64, nw int, race bool, budget tim
 	if m.Nondet != "" {
 		fmt.Fprintln(os.Stdout, "CHECK-BROKEN (nondeterminism or checker failure):", m.Nondet)
 		return 2
+	}
+	if m.SoftBroken != "" {
+		unlisted := 0
+		for _, f := range m.Findings {
+			listed := false
+			for _, k := range loadKnown(ck.ID) {
+				if k.Status == "known" && k.Sig == f.Sig {
+					listed = true
+				}
+			}
+			if !listed {
+				unlisted++
+			}
+		}
+		if unlisted == 0 {
+			fmt.Fprintln(os.Stdout, "CHECK-BROKEN (self-check of the machinery failed and the exploration found nothing that explains it):", m.SoftBroken)
+			return 2
+		}
+		m.Notes = append(m.Notes, "self-check failed on this tree (attributed to the violations below): "+m.SoftBroken)
+		fmt.Fprintln(os.Stdout, "NOTE: self-check failed on this tree, attributed to the violations below:", firstLine(m.SoftBroken))
 	}
 	// classify findings
 	kn := loadKnown(ck.ID)
@@ -591,4 +618,11 @@ func PanicClass(p string) string {
 		b.WriteRune(r)
 	}
 	return b.String()
+}
+
+func firstLine(s string) string {
+	if i := strings.IndexByte(s, '\n'); i >= 0 {
+		return s[:i]
+	}
+	return s
 }
